@@ -3,5 +3,9 @@ CHECKS = [
   "technique": "TLA+ state machine (SceneGraph.tla) model-checked with TLC; TLC-emitted behaviours replayed into the real SceneGraph and every get compared with the spec's RefGet",
   "text": "TLC exhaustively checks the implementation-shaped SceneGraph model (edge table, parents, path cache, hash memo, hash-keyed transform cache) against GetIsPathProduct for all histories up to the depth bound on 4 frames, and every emitted behaviour (state cover, all short histories, simulated long ones) is replayed into the real class with each answer compared to the reference product. History-dependence is the failure mode here and bounded exhaustive histories are the right level for it.",
   "note": "Trusts TLC, the 90-line adapter in checks/c09.py, numpy allclose(1e-9); matrices limited to SE(2,Z) embedded in 4x4; frames <= 5, depth <= 12."},
+ {"property_id": "C02", "category": "model_checking",
+  "technique": "TLA+ state machine of dirty flags / memoised hashes over aliased buffers (TrackedArray.tla) checked with TLC; every abstract program replayed on real TrackedArrays through a catalogue of numpy routes, real hash compared with hash of mirror bytes",
+  "text": "TLC shows the intended design satisfies HashFresh and that in the as-built model every stale hash is caused by one of three named deviations; all abstract programs up to the depth bound (roots, tracked views, base-class views, overridden / C-level writes, reads, hash reads) are instantiated with concrete numpy routes and replayed. A stale real hash that the as-built model does not predict through a listed deviation is a violation; container hashes (mesh, path, point cloud, visual, scene) are compared with freshly built containers and must change when member bytes change.",
+  "note": "Trusts TLC, the route catalogue in checks/c02.py (finite, listed in the evidence), xxhash collisions ignored. Known findings ViewHeldAcrossHash / CLevelWrite / BaseClassViewWrite are attributed only where the as-built model predicts them."},
 ]
 NOT_APPLICABLE = {}
